@@ -14,6 +14,12 @@ type Frozen struct {
 	isNil bool
 }
 
+type asn1Memo struct {
+	key string
+	ok  bool
+	val Value
+}
+
 type blobEntry struct {
 	v Value
 	t types.Type
@@ -145,11 +151,30 @@ func (e *Engine) asn1Unmarshal(st *State, b Slice, target Value) Value {
 	if !e.asn1Havoc {
 		return Tuple{e: []Value{Slice{}, opaqueErr()}}
 	}
-	// untrusted bytes: either malformed or an arbitrary value of the target type
+	// untrusted bytes: either malformed or an arbitrary value of the target type — but a function of the bytes: decoding
+	// the same bytes into the same type again gives the same outcome
+	key := tt.String() + ":"
+	for i := 0; i < b.len; i++ {
+		if t, ok := st.arrOf(b).e[b.off+i].(*Term); ok {
+			key += fmt.Sprintf("%d,", t.id)
+		}
+	}
+	for _, m := range st.asn1Memo {
+		if m.key == key {
+			if !m.ok {
+				return Tuple{e: []Value{Slice{}, opaqueErr()}}
+			}
+			st.store(p, e.thaw(st, m.val))
+			return Tuple{e: []Value{Slice{}, Iface{}}}
+		}
+	}
 	if !e.decide(st, st.fresh("asn1ok", 0)) {
+		st.asn1Memo = append(st.asn1Memo, asn1Memo{key: key})
 		return Tuple{e: []Value{Slice{}, opaqueErr()}}
 	}
-	st.store(p, e.havoc(st, tt, 0))
+	hv := e.havoc(st, tt, 0)
+	st.asn1Memo = append(st.asn1Memo, asn1Memo{key: key, ok: true, val: e.freeze(st, hv)})
+	st.store(p, hv)
 	return Tuple{e: []Value{Slice{}, Iface{}}}
 }
 
@@ -182,7 +207,7 @@ func (e *Engine) havoc(st *State, t types.Type, depth int) Value {
 			a := Array{e: []Value{st.fresh("raw", 8), st.fresh("raw", 8)}}
 			return Slice{arr: st.alloc(a), len: 2, cap: 2}
 		}
-		n := e.choose(st, "vecLen", 3)
+		n := e.choose(st, "vecLen", e.asn1MaxVec+1)
 		if n == 0 {
 			return Slice{}
 		}
